@@ -699,7 +699,7 @@ def routines(learn):
             q = MLP(4, 2, [4], "relu", nnx.Rngs(0))
             opt = nnx.Optimizer(q, optax.adam(1e-2), wrt=nnx.Param)
             prepare([("q_net", q)])
-            r = train(q, cart, buf(64), opt, batch_size=4 if learn else 64, total_timesteps=steps, update_frequency=1, target_update_frequency=NEVER, seed=1, progress_bar=False)
+            r = train(q, cart, buf(64, discrete_actions=True), opt, batch_size=4 if learn else 64, total_timesteps=steps, update_frequency=1, target_update_frequency=NEVER, seed=1, progress_bar=False)
             return [("q_net -> q_target_net", q, r.q_target_net, opt, ident)]
 
         return go
@@ -892,6 +892,8 @@ def run_storage_learning(rep):
     n = 0
     notes = []
     for rname, go in routines(learn=True).items():
+        if "use_checkpoints=True" in rname:
+            continue  # with checkpoints TD7 trains only at episode ends (200 steps on Pendulum): nothing would move
         inits = {}
 
         def prepare(mods, inits=inits):
